@@ -3,7 +3,8 @@ From Coq Require Import List Arith NArith ZArith Bool Lia Permutation.
 From OG Require Import C05.Model C05.Proofs C05.Invariant C05.Theorems.
 Import ListNotations.
 
-Definition wf_cfg (c : config) : Prop := 0 < nn c /\ wal_on c = true /\ clamp c = true /\ pid_fresh c = true.
+Definition wf_cfg (c : config) : Prop :=
+  0 < nn c /\ wal_on c = true /\ clamp c = true /\ pid_fresh c = true /\ trunc_all c = true /\ snap_install c = false.
 
 Section Traces.
   Variable raft_ok : sys -> event -> bool.
@@ -34,12 +35,12 @@ Section Traces.
 
   Lemma reach : forall c es s, wf_cfg c -> run raft_ok (init c) es = Some s -> Inv s /\ InvP s /\ cfg s = c.
   Proof.
-    intros c es s (Hn & Hw & Hcl & Hf) H.
+    intros c es s (Hn & Hw & Hcl & Hf & Hta & Hsi) H.
     destruct (run_inv raft_ok H_elect H_repl H_commit H_learn es (init c) s) as [A B]; try assumption.
-    - split; assumption.
+    - repeat split; assumption.
     - apply inv_init; assumption.
     - split; [assumption|split; [|assumption]].
-      apply (run_invp es (init c) s); [split; assumption|assumption|apply inv_init; assumption|apply invp_init|assumption].
+      apply (run_invp es (init c) s); [repeat split; assumption|assumption|apply inv_init; assumption|apply invp_init|assumption].
   Qed.
 
   (* an acknowledged write is a committed entry carrying exactly the acknowledged batch *)
@@ -100,7 +101,7 @@ Section Traces.
       + intros s' Hs.
         assert (HI' : Inv s').
         { eapply (step_inv raft_ok H_elect H_repl H_commit H_learn); [|exact HI|exact Hs].
-          destruct Hc as (_ & Hw & Hcl & _). rewrite Hcfg; split; assumption. }
+          destruct Hc as (_ & Hw & Hcl & _ & _ & Hsi). rewrite Hcfg; repeat split; assumption. }
         cbn [step] in Hs. rewrite Hd in Hs. inversion Hs; subst s'; clear Hs.
         destruct HI' as (HN' & _ & _). specialize (HN' n). cbn in HN'. rewrite upd_same in HN'.
         destruct HN' as [_ _ _ D _]. cbn in D. destruct (D eq_refl) as (_ & _ & _ & _ & D5 & _).
@@ -128,6 +129,166 @@ Section Traces.
     destruct (nth_error (elog (nodes s n)) (applied (nodes s n))) eqn:E.
     - eexists; split; [reflexivity|]. cbn. rewrite upd_same. reflexivity.
     - apply nth_error_None in E. apply Nat.ltb_lt in Hlt. lia.
+  Qed.
+  (* ---- the leader keeps what any member (also a dead one) still lacks: with trunc_all every truncation index has
+     been persisted as committed by EVERY member, so no member ever needs a raft snapshot *)
+  Definition InvJ (s : sys) : Prop :=
+    (forall n idx, In (EClear idx) (elog (nodes s n)) -> forall m, m < nn (cfg s) -> idx <= hcommit (nodes s m)) /\
+    (forall n m, m < nn (cfg s) -> efirst (nodes s n) <= hcommit (nodes s m)).
+
+  Lemma members_have_spec : forall s idx m, members_have s idx = true -> m < nn (cfg s) -> idx <= hcommit (nodes s m).
+  Proof.
+    intros s idx m H Hm. unfold members_have in H. rewrite forallb_forall in H.
+    apply Nat.leb_le. apply H. apply in_seq. lia.
+  Qed.
+
+  Lemma invj_frame_node : forall s s' n x', InvJ s ->
+    nodes s' = upd (nodes s) n x' -> cfg s' = cfg s ->
+    (forall idx, In (EClear idx) (elog x') -> (exists n0, In (EClear idx) (elog (nodes s n0))) \/
+                                            (forall m, m < nn (cfg s) -> idx <= hcommit (nodes s m))) ->
+    hcommit (nodes s n) <= hcommit x' -> (forall m, m < nn (cfg s) -> efirst x' <= hcommit (nodes s m)) -> InvJ s'.
+  Proof.
+    intros s s' n x' [J1 J2] Hn Hc F1 F2 F3. split.
+    - intros n0 idx Hin m Hm. rewrite Hc in Hm. rewrite Hn in *. unfold upd in *.
+      assert (Hh : hcommit (nodes s m) <= hcommit (if Nat.eqb m n then x' else nodes s m)).
+      { destruct (Nat.eqb m n) eqn:E; [apply Nat.eqb_eq in E; subst; assumption|lia]. }
+      destruct (Nat.eqb n0 n) eqn:E.
+      + destruct (F1 _ Hin) as [[n1 H1]|H1]; [specialize (J1 _ _ H1 m Hm)|specialize (H1 m Hm)]; lia.
+      + specialize (J1 _ _ Hin m Hm). lia.
+    - intros n0 m Hm. rewrite Hc in Hm. rewrite Hn. unfold upd.
+      assert (Hh : hcommit (nodes s m) <= hcommit (if Nat.eqb m n then x' else nodes s m)).
+      { destruct (Nat.eqb m n) eqn:E; [apply Nat.eqb_eq in E; subst; assumption|lia]. }
+      destruct (Nat.eqb n0 n) eqn:E.
+      + apply Nat.eqb_eq in E; subst. specialize (F3 m Hm). lia.
+      + specialize (J2 n0 m Hm). lia.
+  Qed.
+
+  Lemma step_invj : forall s e s', trunc_all (cfg s) = true -> snap_install (cfg s) = false ->
+    InvJ s -> step raft_ok s e = Some s' -> InvJ s'.
+  Proof.
+    intros s e s' Hta Hsi [J1 J2] H.
+    assert (Hcfg : cfg s' = cfg s) by (eapply step_cfg; eassumption).
+    (* generic frame: logs only keep/copy EClear entries already in some log, hcommit only grows, efirst unchanged *)
+    assert (Frame : (forall n idx, In (EClear idx) (elog (nodes s' n)) -> exists n0, In (EClear idx) (elog (nodes s n0))) ->
+                    (forall m, hcommit (nodes s m) <= hcommit (nodes s' m)) ->
+                    (forall n, efirst (nodes s' n) = efirst (nodes s n)) -> InvJ s').
+    { intros F1 F2 F3. split.
+      - intros n idx Hin m Hm. rewrite Hcfg in Hm. destruct (F1 _ _ Hin) as [n0 H0]. specialize (J1 _ _ H0 m Hm). specialize (F2 m). lia.
+      - intros n m Hm. rewrite Hcfg in Hm. rewrite F3. specialize (J2 n m Hm). specialize (F2 m). lia. }
+    destruct e; cbn [step] in H.
+    - (* Propose *)
+      destruct (avail (nodes s n)); [|discriminate].
+      set (x := nodes s n) in *.
+      set (x' := mkNode (up x) (paused x) (elog x) (efirst x) (hcommit x) (snap x) (wal x) (walold x) (files x)
+                        (applied x) (snapc x) (mem x) (imm x) (sig x) ((N.succ (nextpid x), b) :: pend x) (N.succ (nextpid x))) in *.
+      assert (Hx1 : hcommit x' = hcommit x) by reflexivity.
+      assert (Hx2 : efirst x' = efirst x) by reflexivity.
+      assert (Hx3 : elog x' = elog x) by reflexivity.
+      clearbody x'.
+      destruct (leader s) as [l|].
+      + cbn [set_node set_nodes nodes] in H.
+        destruct (avail (upd (nodes s) n x' l)); inversion H; subst; clear H; apply Frame; cbn; unfold upd.
+        * intros n0 idx Hin. destruct (Nat.eqb n0 l) eqn:E1; cbn in Hin.
+          -- apply in_app_or in Hin. destruct Hin as [Hin | [Hin | [] ] ]; [|discriminate].
+             destruct (Nat.eqb l n) eqn:E2; [apply Nat.eqb_eq in E2; subst; rewrite Hx3 in Hin|]; eauto.
+          -- destruct (Nat.eqb n0 n) eqn:E2; [apply Nat.eqb_eq in E2; subst; rewrite Hx3 in Hin|]; eauto.
+        * intros m. destruct (Nat.eqb m l) eqn:E1; cbn.
+          -- apply Nat.eqb_eq in E1; subst. destruct (Nat.eqb l n) eqn:E2; [apply Nat.eqb_eq in E2; subst; fold x; lia|lia].
+          -- destruct (Nat.eqb m n) eqn:E2; [apply Nat.eqb_eq in E2; subst; fold x; lia|lia].
+        * intros m. destruct (Nat.eqb m l) eqn:E1; cbn.
+          -- apply Nat.eqb_eq in E1; subst. destruct (Nat.eqb l n) eqn:E2; [apply Nat.eqb_eq in E2; subst; fold x; lia|reflexivity].
+          -- destruct (Nat.eqb m n) eqn:E2; [apply Nat.eqb_eq in E2; subst; fold x; lia|reflexivity].
+        * intros n0 idx Hin. destruct (Nat.eqb n0 n) eqn:E2; [apply Nat.eqb_eq in E2; subst; rewrite Hx3 in Hin|]; eauto.
+        * intros m. destruct (Nat.eqb m n) eqn:E2; [apply Nat.eqb_eq in E2; subst; fold x; lia|lia].
+        * intros m. destruct (Nat.eqb m n) eqn:E2; [apply Nat.eqb_eq in E2; subst; fold x; lia|reflexivity].
+      + inversion H; subst; clear H; apply Frame; cbn; unfold upd.
+        * intros n0 idx Hin. destruct (Nat.eqb n0 n) eqn:E2; [apply Nat.eqb_eq in E2; subst; rewrite Hx3 in Hin|]; eauto.
+        * intros m. destruct (Nat.eqb m n) eqn:E2; [apply Nat.eqb_eq in E2; subst; fold x; lia|lia].
+        * intros m. destruct (Nat.eqb m n) eqn:E2; [apply Nat.eqb_eq in E2; subst; fold x; lia|reflexivity].
+    - inversion H; subst; eapply (invj_frame_node s _ n); [split; assumption|reflexivity|reflexivity|cbn; intros; left; eauto|cbn; lia|cbn; intros; apply J2; assumption].
+    - destruct (raft_ok s (RElect n)); inversion H; subst; apply Frame; cbn; intros; try lia; eauto.
+    - inversion H; subst; apply Frame; cbn; intros; try lia; eauto.
+    - (* RReplicate *)
+      destruct (raft_ok s (RReplicate m k)) eqn:Hr; [|discriminate]. cbn [andb] in H.
+      destruct (H_repl _ _ _ Hr) as (l & Hl & _). rewrite Hl in H.
+      destruct (Nat.leb _ _) in H; [|discriminate]. inversion H; subst; clear H. cbn [raft_effect]. rewrite Hl.
+      eapply (invj_frame_node s _ m); [split; assumption|reflexivity|reflexivity| |cbn; lia|cbn; intros; apply J2; assumption].
+      cbn. intros idx Hin. left. exists l. eapply In_firstn; eassumption.
+    - (* RCommit *)
+      destruct (raft_ok s (RCommit k)) eqn:Hr; [|discriminate]. inversion H; subst; clear H.
+      cbn [raft_effect]. destruct (leader s); apply Frame; cbn; intros; try lia; eauto.
+    - (* RLearn *)
+      destruct (raft_ok s (RLearn m c)) eqn:Hr; [|discriminate]. inversion H; subst; clear H.
+      destruct (H_learn _ _ _ Hr) as (_ & Hc1 & _).
+      eapply (invj_frame_node s _ m); [split; assumption|reflexivity|reflexivity|cbn; intros; left; eauto|cbn; lia|cbn; intros; apply J2; assumption].
+    - (* Apply *)
+      set (x := nodes s n) in *.
+      destruct (avail x && Nat.ltb (applied x) (hcommit x) && Nat.leb (efirst x) (applied x)); [|discriminate].
+      destruct (nth_error (elog x) (applied x)) as [en|] eqn:Hnth; [|discriminate].
+      inversion H; subst; clear H.
+      eapply (invj_frame_node s _ n); [split; assumption|reflexivity|reflexivity|cbn; intros; left; eauto|cbn; unfold x; lia|].
+      intros m Hm. cbn -[Nat.max Nat.min tr_first]. fold x.
+      destruct en; try (apply J2; assumption).
+      apply nth_error_In in Hnth. specialize (J1 n idx Hnth m Hm). specialize (J2 n m Hm). fold x in J2.
+      pose proof (tr_first_le (fsz (cfg s)) (if clamp (cfg s) then Nat.min idx (snap x) else idx)).
+      destruct (clamp (cfg s)); lia.
+    - destruct (avail (nodes s n)); [|discriminate]. inversion H; subst; eapply (invj_frame_node s _ n); [split; assumption|reflexivity|reflexivity|cbn; intros; left; eauto|cbn; lia|cbn; intros; apply J2; assumption].
+    - match type of H with (if ?b then _ else _) = _ => destruct b; [|discriminate] end.
+      inversion H; subst; eapply (invj_frame_node s _ n); [split; assumption|reflexivity|reflexivity|cbn; intros; left; eauto|cbn; lia|cbn; intros; apply J2; assumption].
+    - match type of H with (if ?b then _ else _) = _ => destruct b; [|discriminate] end.
+      inversion H; subst; eapply (invj_frame_node s _ n); [split; assumption|reflexivity|reflexivity|cbn; intros; left; eauto|cbn; lia|cbn; intros; apply J2; assumption].
+    - destruct (avail (nodes s n)); [|discriminate]. inversion H; subst; eapply (invj_frame_node s _ n); [split; assumption|reflexivity|reflexivity|cbn; intros; left; eauto|cbn; lia|cbn; intros; apply J2; assumption].
+    - (* TruncPropose *)
+      destruct (leader s) as [l|] eqn:Hl; [|discriminate].
+      destruct (avail (nodes s l) && all_up s && negb (Nat.eqb (snap (nodes s l)) 0)); cbn [andb] in H; [|discriminate].
+      rewrite Hta in H. cbn [negb orb] in H.
+      destruct (members_have s (trunc_idx (cfg s) mm (snap (nodes s l)))) eqn:Hmh; [|discriminate].
+      inversion H; subst; clear H.
+      eapply (invj_frame_node s _ l); [split; assumption|reflexivity|reflexivity| |cbn; lia|cbn; intros; apply J2; assumption].
+      cbn. intros idx Hin. apply in_app_or in Hin. destruct Hin as [Hin | [Hin | [] ] ]; [left; eauto|].
+      inversion Hin; subst idx. right. intros m Hm. eapply members_have_spec; eassumption.
+    - (* TruncForce *)
+      destruct (leader s) as [l|] eqn:Hl; [|discriminate].
+      destruct (avail (nodes s l) && negb (Nat.eqb (snap (nodes s l)) 0)); cbn [andb] in H; [|discriminate].
+      rewrite Hta in H. cbn [negb orb] in H.
+      destruct (members_have s (trunc_idx (cfg s) mm (snap (nodes s l)))) eqn:Hmh; [|discriminate].
+      inversion H; subst; clear H.
+      eapply (invj_frame_node s _ l); [split; assumption|reflexivity|reflexivity| |cbn; lia|cbn; intros; apply J2; assumption].
+      cbn. intros idx Hin. apply in_app_or in Hin. destruct Hin as [Hin | [Hin | [] ] ]; [left; eauto|].
+      inversion Hin; subst idx. right. intros m Hm. eapply members_have_spec; eassumption.
+    - (* TruncLocal *)
+      set (x := nodes s n) in *.
+      destruct (avail x); cbn [andb] in H; [|discriminate]. rewrite Hta in H. cbn [negb orb] in H.
+      destruct (members_have s (snap x)) eqn:Hmh; [|discriminate].
+      inversion H; subst; clear H.
+      eapply (invj_frame_node s _ n); [split; assumption|reflexivity|reflexivity|cbn; intros; left; eauto|cbn; unfold x; lia|].
+      intros m Hm. cbn -[Nat.max tr_first]. fold x.
+      pose proof (tr_first_le (fsz (cfg s)) (snap x)). pose proof (members_have_spec _ _ m Hmh Hm). specialize (J2 n m Hm). fold x in J2. lia.
+    - (* RSnapshot *)
+      destruct (leader s); [|discriminate]. rewrite Hsi in H. cbn in H. discriminate.
+    - (* Kill *)
+      destruct (up (nodes s n)); [|discriminate]. inversion H; subst; eapply (invj_frame_node s _ n); [split; assumption|reflexivity|reflexivity|cbn; intros; left; eauto|cbn; lia|cbn; intros; apply J2; assumption].
+    - (* Restart *)
+      destruct (up (nodes s n)); [discriminate|]. inversion H; subst; eapply (invj_frame_node s _ n); [split; assumption|reflexivity|reflexivity|cbn; intros; left; eauto|cbn; lia|cbn; intros; apply J2; assumption].
+    - destruct (up (nodes s n)); [|discriminate]. inversion H; subst; eapply (invj_frame_node s _ n); [split; assumption|reflexivity|reflexivity|cbn; intros; left; eauto|cbn; lia|cbn; intros; apply J2; assumption].
+    - destruct (up (nodes s n)); [|discriminate]. inversion H; subst; eapply (invj_frame_node s _ n); [split; assumption|reflexivity|reflexivity|cbn; intros; left; eauto|cbn; lia|cbn; intros; apply J2; assumption].
+    - destruct (get_new_rg (master s) (peers s) newm) as [[m' ps']|]; inversion H; subst; apply Frame; cbn; intros; try lia; eauto.
+  Qed.
+
+  Lemma members_keep_entries : forall c es s n m, wf_cfg c -> run raft_ok (init c) es = Some s ->
+    m < nn c -> efirst (nodes s n) <= hcommit (nodes s m) /\ efirst (nodes s n) <= length (elog (nodes s m)).
+  Proof.
+    intros c es s n m Hc H Hm.
+    assert (HJ : forall es s0 s1, cfg s0 = c -> InvJ s0 -> run raft_ok s0 es = Some s1 -> InvJ s1 /\ cfg s1 = c).
+    { clear es s H. induction es as [|e es IH]; intros s0 s1 Hc0 HJ0 H; cbn in H.
+      - inversion H; subst; split; [assumption|reflexivity].
+      - destruct (step raft_ok s0 e) as [s2|] eqn:Hs; [|discriminate].
+        apply (IH s2 s1); [rewrite (step_cfg raft_ok _ _ _ Hs); assumption| |assumption].
+        destruct Hc as (_ & _ & _ & _ & Hta & Hsi). eapply step_invj; try eassumption; rewrite Hc0; assumption. }
+    destruct (HJ es (init c) s eq_refl) as [[J1 J2] Hcs]; [|assumption|].
+    - split; cbn; intros; [contradiction|lia].
+    - destruct (reach _ _ _ Hc H) as ((HN & _ & _) & _ & _).
+      rewrite <- Hcs in Hm. specialize (J2 n m Hm). pose proof (hc_le_elog _ _ (HN m)). lia.
   Qed.
 End Traces.
 
@@ -291,3 +452,22 @@ Qed.
 (* ------------------------------------------------------------------ acknowledgement rule of dealCommitData *)
 Lemma commit_result_repaired_sound : forall u a, commit_result_repaired u a = true -> a = true.
 Proof. intros u a H; unfold commit_result_repaired in H; apply andb_prop in H; tauto. Qed.
+
+(* ------------------------------------------------------------------ coordinator retry loop *)
+Lemma coord_ack_sound : forall fuel script last calls,
+  fst (coord_retry fuel script last calls) = true -> In WOk (script ++ [last]).
+Proof.
+  induction fuel as [|f IH]; intros script last calls H; destruct script as [|x r]; cbn in *.
+  - destruct last; cbn in H; try discriminate; left; reflexivity.
+  - destruct x; cbn in H; try discriminate; left; reflexivity.
+  - destruct last; cbn in H; try discriminate; [left; reflexivity|]. specialize (IH [] WRetry _ H). cbn in IH. destruct IH as [IH|[]]. discriminate.
+  - destruct x; cbn in H; try discriminate; [left; reflexivity|]. right. exact (IH _ _ _ H).
+Qed.
+
+Lemma coord_retries_until_ok : forall k fuel last calls, k <= fuel ->
+  coord_retry fuel (repeat WRetry k ++ [WOk]) last calls = (true, S (k + calls)).
+Proof.
+  induction k as [|k IH]; intros fuel last calls H; cbn.
+  - destruct fuel; reflexivity.
+  - destruct fuel as [|f]; [lia|]. cbn. rewrite IH by lia. f_equal. lia.
+Qed.
